@@ -9,6 +9,33 @@ def run(tier):
     budget = 120000 if tier == 'thorough' else 24000
     out, res = _tree.run_groups(PROP, ['C01'], tier, {'nav': False, 'parts': False, 'posq': 0, 'code_budget': 40000},
                                 budget)
+    # token half of C01 (every token becomes exactly one leaf): TokenStream.Tiles on the complete f-string and
+    # indentation enumerations, which are too many for tree validation
+    from harness import inputs as _inputs, pipeline as _pl
+    from harness.common import Scratch as _S, VERSIONS as _V
+    sc = _S(PROP + 't')
+    try:
+        fstr, r1 = _inputs.tlc_strings(sc.sub('f'), 4, _inputs.FSTR_ALPHABET)
+        ind, r2 = _inputs.tlc_strings(sc.sub('i'), 4 if tier == 'quick' else 5, _inputs.INDENT_ALPHABET)
+        starts = ['f"', "f'", 'f"""', "rf'"]
+        titems = [[i + 1, starts[i % 4] + s, _V[i % 9], 'fstrings'] for i, s in enumerate(fstr)]
+        titems += [[len(titems) + i + 1, ('if a:\n  b\n' if i % 2 else '') + s, _V[i % 9], 'indstrings'] for i, s in enumerate(ind)]
+        tk = _pl.validate(titems, 'harness.recorders.rec_tokens', {}, sc.sub('tok'), ['TokenStream', 'TokTrace'], 'TokTrace',
+                          batch_name='traces.json', specname='SpecWhole')
+        out.add('states', r1.distinct + r2.distinct + tk['states'])
+        out.add('transitions', r1.generated + r2.generated + tk['generated'])
+        out.add('traces_validated_against_impl', tk['accepted'])
+        out.add('evaluations', tk['n'])
+        out.cov(token_traces=tk['n'])
+        for rej in tk['rejected']:
+            r = rej['reject']
+            if not r[3].startswith(('Tiles', 'NeverFails', 'OneEndmarker')):
+                continue                      # positions / purity belong to C03 / C09
+            tr = rej['trace'] or {}
+            out.violation('tokens:' + r[3], 'TokenStream.' + r[3], {'reject': r, 'text': tr.get('text'), 'version': tr.get('ver')},
+                          {'kind': 'tokens', 'trace': tr})
+    finally:
+        sc.cleanup()
     # bytes input: the same clause group on parse(text.encode()) (decoding itself is C15)
     import random
     from harness import texts
